@@ -1,1 +1,2 @@
+pub mod batched;
 pub mod hierarchy;
